@@ -199,6 +199,25 @@ def valueFromStr (s : String) : Val :=
   | '-' :: ds => if isDigits ds then .int (-(String.ofList ds).toNat!) else .str s
   | cs => if isDigits cs then .int (String.ofList cs).toNat! else .str s
 
+/-! ### `read_cli_settings`: the `--config KEY=VALUE` arguments -/
+
+/-- `c.split_once("=")`: the text before and after the first `=` -/
+def splitFirstEq : List Char → Option (List Char × List Char)
+  | [] => none
+  | c :: rest =>
+    if c = '=' then some ([], rest)
+    else match splitFirstEq rest with
+      | some (k, v) => some (c :: k, v)
+      | none => none
+
+/-- one argument: a setting, or nothing when it has no `=` (skipped with a notice) -/
+def readCliArg (a : List Char) : Option (String × Val) :=
+  match splitFirstEq a with
+  | some (k, v) => some (String.ofList k, valueFromStr (String.ofList v))
+  | none => none
+
+def readCliArgs (args : List (List Char)) : List (String × Val) := args.filterMap readCliArg
+
 /-! ### driver -/
 
 def showOpt {α} (f : α → String) : Option α → String
@@ -232,6 +251,18 @@ def parseRaw (s : Sexp) : Option (String × Val) :=
   | .list [.atom "r", .atom k, .atom v] => some (k, valueFromStr v)
   | _ => none
 
+/-- command-line entries: `(a "RAW ARGUMENT")` as typed after `--config` (or the older `(r KEY "text")`) -/
+def parseCli : List Sexp → Option (List (String × Val))
+  | [] => some []
+  | .list [.atom "a", .atom arg] :: rest =>
+    match parseCli rest with
+    | some es => some ((readCliArg arg.toList).toList ++ es)
+    | none => none
+  | e :: rest =>
+    match parseRaw e, parseCli rest with
+    | some x, some es => some (x :: es)
+    | _, _ => none
+
 def keyed (es : List (String × Val)) : Option (List (Key × Val)) :=
   optMapM (fun e => (parseKey e.1).map fun k => (k, e.2)) es
 
@@ -239,7 +270,7 @@ def keyed (es : List (String × Val)) : Option (List (Key × Val)) :=
 def runLine (line : String) : String :=
   match Sexp.parse line with
   | some (.list [.atom "cfg", .atom target, .list file, .list cli, .list attrs]) =>
-    match optMapM parseFileEntry file, optMapM parseRaw cli, optMapM parseRaw attrs with
+    match optMapM parseFileEntry file, parseCli cli, optMapM parseRaw attrs with
     | some f, some c, some a =>
       match keyed (readFile f), keyed c, keyed a with
       | some f, some c, some a =>
